@@ -11,4 +11,6 @@ import JominiModel.Props.C14
 #print axioms Jomini.Props.C14.C14_roundtrip_containers
 #print axioms Jomini.Props.C14.C14_known_param_scalar_breaks
 #print axioms Jomini.Props.C14.C14_known_mixed_nested_operator_breaks
+#print axioms Jomini.Props.C14.C14_known_empty_first_element_breaks
+#print axioms Jomini.Props.C14.C14_known_header_empty_body_breaks
 #print axioms Jomini.Props.C14.C14_nested_roundtrip
